@@ -265,8 +265,7 @@ def mem_family(k=2):
         yield b
     if k <= 2:
         # value of a later store is the result of an earlier load (forwarding chains)
-        for ld in ("MLOAD", "SLOAD"):
-            st = "MSTORE" if ld == "MLOAD" else "SSTORE"
+        for ld, st in (("MLOAD", "MSTORE"), ("SLOAD", "SSTORE"), ("MLOAD", "MSTORE8")):
             for a, c in itertools.product(ADDR9 if ld == "MLOAD" else KEYS4, repeat=2):
                 b = compile_copy([(st, a, Z), (st, c, (ld, a))], 3)
                 t = tuple(b)
